@@ -99,6 +99,53 @@ Theorem C15_accepted_refresh_only_removes : forall (st : state) (snaps : list N)
 Proof. exact accepted_refresh_only_removes. Qed.
 Print Assumptions C15_accepted_refresh_only_removes.
 
+(* gate-auto-refresh hook runs (snapctl refresh --hold / --proceed, then the hook handler's Done / Error): `Hook g snaps
+   script fails` is expanded by hook_ops into the HoldRefresh / ProceedWithRefresh calls the code makes; hstep / hrun run
+   histories that contain hook runs. *)
+Theorem C15_hook_histories : forall (ops : list op) (st : state), hrun st ops = run st (expand_all ops).
+Proof. exact hrun_expand. Qed.
+Print Assumptions C15_hook_histories.
+
+(* the 48 h bound over every history that also contains hook runs, refused-then-failed ones included *)
+Theorem C15_other_48h_hooks : forall (lr0 : N -> Z) (now0 : Z) (ops : list op) (st : state) (ep : episodes),
+  (forall s, lr0 s <= now0) -> forallb default_duration ops = true ->
+  run_ep (init_state lr0 now0) no_episodes (expand_all ops) = (st, ep) ->
+  st = hrun (init_state lr0 now0) ops /\
+  forall level s g, g <> system -> g <> s -> effective st level s g = true ->
+  exists t0, ep s g = Some t0 /\ st_now st <= t0 + forty_eight_h.
+Proof. exact other_48h_hooks. Qed.
+Print Assumptions C15_other_48h_hooks.
+
+(* a hook that asks for --hold (granted or refused) and then exits, with success or failure, is exactly one HoldRefresh:
+   a refused --hold followed by a failing hook does not hold again; and it never restarts an episode *)
+Theorem C15_hook_hold_is_one_hold : forall (st : state) (g : N) (snaps : list N) (fails : bool),
+  hstep st (Hook g snaps [CmdHold] fails) = step st (Hold 0 g 0 snaps).
+Proof. exact hook_hold_is_one_hold. Qed.
+Print Assumptions C15_hook_hold_is_one_hold.
+
+Theorem C15_hook_hold_keeps_episode : forall (st : state) (g : N) (snaps : list N) (fails : bool) (s g' : N) (h h' : hold),
+  st_gating st s g' = Some h -> st_gating (hstep st (Hook g snaps [CmdHold] fails)) s g' = Some h' -> h_first h' = h_first h.
+Proof. exact hook_hold_keeps_episode. Qed.
+Print Assumptions C15_hook_hold_keeps_episode.
+
+(* a hook that says nothing: failing = hold with the defaults, succeeding = proceed *)
+Theorem C15_hook_silent : forall (st : state) (g : N) (snaps : list N),
+  hstep st (Hook g snaps [] true) = step st (Hold 0 g 0 snaps) /\ hstep st (Hook g snaps [] false) = step st (Proceed g []).
+Proof. intros. split; [apply hook_silent_failing_holds | apply hook_silent_ok_proceeds]. Qed.
+Print Assumptions C15_hook_silent.
+
+(* `a hook run never restarts an episode` is false of the faithful model for hooks that go on after a refused --hold: a
+   second --hold in the same run, or --proceed followed by a non-zero exit (the Error fallback holds). In both the snap
+   is still held one hour past 48 h after the first hold. KNOWN_FINDINGS key hook-rehold-after-refusal; both histories
+   are run on the implementation on every run. *)
+Theorem C15_hook_rehold_refuted :
+  (let st := hrun (init_state (fun _ => - h_ns) 0) rehold_script_witness in
+   effective st 0 2 1 = true /\ 0 + forty_eight_h < st_now st) /\
+  (let st := hrun (init_state (fun _ => - h_ns) 0) rehold_fallback_witness in
+   effective st 0 2 1 = true /\ 0 + forty_eight_h < st_now st).
+Proof. exact rehold_witnesses. Qed.
+Print Assumptions C15_hook_rehold_refuted.
+
 (* holds set by the administrator last until the requested time (forever = the largest duration) at the requested
    level and survive whatever gating snaps, refreshes and the clock do. `sys_until now t` is the exact end: now + 2^63-1 ns
    for forever, the requested time u when u <> now (inside the range of a Go duration), and now - 1 ns when u = now (an
